@@ -189,6 +189,14 @@ func TestC05(t *testing.T) {
 		}
 		rp := map[string]any{"keys": keysReplay(keys), "client_stream": hx(stream), "expect": "passthrough_exact", "kind": kind, "want_server_name": h.SNI()}
 		tr := wire.New(stream, io.EOF)
+		// the client may fall silent for a while after the hello: the relay's idle timer (a read
+		// deadline) fires, the relay extends it, and the stream goes on where it was
+		idleAt := -1
+		if firstLen := 5 + (int(stream[3])<<8 | int(stream[4])); len(stream) > firstLen && rapid.IntRange(0, 2).Draw(t, "client_idle") == 0 {
+			idleAt = firstLen + uniform(t, "idle_at", len(stream)-firstLen)
+			tr = wire.New(stream[:idleAt], nil)
+			cl = append(cl, "idle_timeout_then_more")
+		}
 		withDebug = rapid.Bool().Draw(t, "with_debug")
 		defer func() { withDebug = false }()
 		if rapid.IntRange(0, 2).Draw(t, "server_builds_its_options_once") > 0 {
@@ -230,6 +238,20 @@ func TestC05(t *testing.T) {
 					ev.Violation(t, "C05", rp, "Write of backend record %d returned (%d,%v)", wi-1, n, e)
 				}
 				wrote = append(wrote, b...)
+				continue
+			}
+			if idleAt >= 0 && len(got) == idleAt {
+				tr.SetReadDeadline(time.Now().Add(-time.Second))
+				var n int
+				e := guard(func() error { var e error; n, e = c.Read(buf); return e })
+				var ne net.Error
+				if n != 0 || !errors.As(e, &ne) || !ne.Timeout() {
+					ev.Violation(t, "C05", rp, "Read with an expired read deadline and a silent client returned (%d, %v), want the transport's timeout", n, e)
+				}
+				tr.SetReadDeadline(time.Time{})
+				tr.Feed(stream[idleAt:])
+				tr.Finish(io.EOF)
+				idleAt = -1
 				continue
 			}
 			var n int
